@@ -4,6 +4,8 @@ pub mod c01;
 pub mod c02;
 pub mod c03;
 pub mod c05;
+pub mod c06;
+pub mod c07;
 pub mod c08;
 pub mod c11;
 pub mod c12;
@@ -17,6 +19,8 @@ pub fn run(ctx: &mut Ctx) -> bool {
         "C02" => c02::run(ctx),
         "C03" => c03::run(ctx),
         "C05" => c05::run(ctx),
+        "C06" => c06::run(ctx),
+        "C07" => c07::run(ctx),
         "C08" => c08::run(ctx),
         "C11" => c11::run(ctx),
         "C12" => c12::run(ctx),
